@@ -66,7 +66,10 @@ def blanks(rng, stress):
     r = rng.random()
     if stress == 2 and r < 0.5:
         n = heavy_len(rng)
-        return (" " * n) if r < 0.25 else "".join(rng.choice(" \t") for _ in range(n))
+        if r < 0.25:
+            return " " * n
+        unit = "".join(rng.choice(" \t") for _ in range(rng.choice([2, 3, 5, 7])))      # (cheap: a short random unit repeated)
+        return (unit * (n // len(unit) + 1))[:n]
     return rng.choice(["  ", "\t", " \t", "\t ", "   ", "\t\t", "    "])
 
 
@@ -249,6 +252,23 @@ def bad_element_lines(rng, last):
 keep_alive = []      # scratch documents stay alive for the whole run (leak probe: nothing may depend on their death)
 
 EXC = {"ValueError": "ValueError", "AmbiguousDeb822FieldKeyError": "Ambiguous", "KeyError": "KeyError"}
+_REAL = {}
+
+
+def from_repo(ex):
+    """core.raised_by_code_under_test with cached realpath() (thousands of expected ValueErrors per run): True when
+    the innermost frame of the traceback lies in the repository under test"""
+    import os
+    import traceback
+    if "repo" not in _REAL:
+        _REAL["repo"] = os.path.realpath(os.environ.get("VERIF_REPO", "/repo")) + os.sep
+    tb = traceback.extract_tb(ex.__traceback__)
+    if not tb:
+        return False
+    fn = tb[-1].filename
+    if fn not in _REAL:
+        _REAL[fn] = os.path.realpath(fn)
+    return _REAL[fn].startswith(_REAL["repo"])
 
 
 def classify(ex):
@@ -339,7 +359,7 @@ class World(object):
             self._apply(c, rng, bad_lines)
             return "ok"
         except Exception as ex:      # noqa: BLE001 -- an exception of the library is an observation
-            if not core.raised_by_code_under_test(ex):
+            if not from_repo(ex):
                 raise
             return classify(ex)
 
@@ -522,6 +542,8 @@ class World(object):
         raise core.MachineryError("unknown op %r" % (op,))
 
     # ---- comparison with a model world (texts by injective concretization, objects by identity)
+    deep = True          # diff(): also parse the document afresh and compare (switched off for a share of the quick replays)
+
     def diff(self, w, adopt=False):
         """None when the real objects are the model world w, else a message.  adopt: the handle numbering of w is taken
         over first (an alternative outcome in which the caller's element was not used)"""
@@ -541,7 +563,7 @@ class World(object):
                 got = self.paras[p].dump()
                 again = self.paras[p].dump()
             except Exception as ex:      # noqa: BLE001
-                if not core.raised_by_code_under_test(ex):
+                if not from_repo(ex):
                     raise
                 return "exc", "dump() of paragraph %d raised %s: %s" % (p + 1, type(ex).__name__, ex)
             if got != again:
@@ -576,9 +598,10 @@ class World(object):
             want = conc.file_text(w)
             if got != want:
                 return "file", "the document is %r, the specification says %r" % (clip(got), clip(want))
-            back = list(parse(got, "list", accept_files_with_duplicated_fields=True))
-            if [x.dump() for x in back] != [conc.para_text(fs) for fs in w["ps"]]:
-                return "file", "a fresh parse of the document %r does not give the paragraphs back" % clip(got)
+            if self.deep:
+                back = list(parse(got, "list", accept_files_with_duplicated_fields=True))
+                if [x.dump() for x in back] != [conc.para_text(fs) for fs in w["ps"]]:
+                    return "file", "a fresh parse of the document %r does not give the paragraphs back" % clip(got)
         for rec in w["held"]:
             e = self.reg.get(rec["h"])
             if e is None:
@@ -1160,7 +1183,7 @@ class Recorder(object):
             call()
             ev["res"] = "ok"
         except Exception as ex:      # noqa: BLE001 -- an exception of the library is an observation
-            if not core.raised_by_code_under_test(ex):
+            if not from_repo(ex):
                 raise
             ev["res"] = classify(ex)
         ev["obs"] = self.observe()
